@@ -8,4 +8,4 @@ From PyecoreV Require Import Model.Kernel Proofs.Acyclic.
 Definition run_fits (t : list BinNums.Z) : list BinNums.Z :=
   let '(m, rest) := KernelIO.dec_mm t in
   cons (b2z (fits_b m (Kernel.init_state m) (KernelIO.dec_ops (length rest) rest))) nil.
-Extraction "modelgen.ml" run_idfrag run_idfrag_premises run_coll run_kernel run_premises run_fits run_frag run_defaults run_metaviews run_commands run_savefs run_rset run_dataconv run_c3 run_sig run_promote run_iskw run_metaedit run_ecoremm run_namefrag run_xmiattr run_jsonval run_refload run_paths run_proxy run_href run_enum run_slice run_slicenotif run_staticdecl run_xmidoc_enc run_xmidoc_dec run_jsondoc_enc run_jsondoc_dec.
+Extraction "modelgen.ml" run_idfrag run_idfrag_premises run_coll run_kernel run_premises run_fits run_frag run_defaults run_metaviews run_commands run_savefs run_rset run_dataconv run_c3 run_sig run_promote run_iskw run_metaedit run_ecoremm run_namefrag run_xmiattr run_jsonval run_refload run_paths run_proxy run_href run_enum run_slice run_slicenotif run_sliceinv run_staticdecl run_xmidoc_enc run_xmidoc_dec run_jsondoc_enc run_jsondoc_dec.
